@@ -1,6 +1,9 @@
 import L21.Props.C05
 import L21.Props.C05RT
 import L21.Props.C11
+#print axioms L21.Lef.c05_read_write_read_partial
+#print axioms L21.Lef.c05_read_write_read_noext
+#print axioms L21.Lef.c05_reader_image_writable
 #print axioms L21.Lef.c05_write_read_tokens
 #print axioms L21.Lef.c05_macro_write_read
 #print axioms L21.Lef.c05_decimal_text_roundtrip
